@@ -99,7 +99,10 @@ impl TzLocation<chrono_tz::Tz> {
     /// );
     /// ```
     pub fn from_coords(coords: Coordinates) -> Self {
+        #[cfg(oh_verif)]
+        use ::oh_verif_rt::sync::LazyLock;
         use std::collections::HashMap;
+        #[cfg(not(oh_verif))]
         use std::sync::LazyLock;
 
         static TZ_NAME_FINDER: LazyLock<tzf_rs::DefaultFinder> =
@@ -114,6 +117,8 @@ impl TzLocation<chrono_tz::Tz> {
         });
 
         let tz_name = TZ_NAME_FINDER.get_tz_name(coords.lon(), coords.lat());
+        #[cfg(oh_verif)]
+        ::oh_verif_rt::probe("from_coords:between_lazies");
 
         #[allow(clippy::unnecessary_lazy_evaluations)]
         let tz = TZ_BY_NAME.get(tz_name).copied().unwrap_or_else(|| {
